@@ -320,6 +320,7 @@ API_PRELUDE = BORROW_PRELUDE + """pub fn need_clone<T: ?Sized + Clone>() {}
 pub fn need_copy<T: Copy>() {}
 pub fn need_deref_mut<T: ?Sized + std::ops::DerefMut>() {}
 pub struct NoClone(pub u8);
+pub fn need_from<A, B: From<A>>() {}
 """
 API_CELLS = [
     # bitwise-copying constructors must insist on Copy elements (a memcpy of owning elements duplicates them)
@@ -347,6 +348,15 @@ API_CELLS = [
     ("C08", "OffsetArc::make_mut needs exclusive access to the handle", "let o = mk_off(); let _ = o.make_mut();", "let mut o = mk_off(); let _ = o.make_mut();", ["E0596"]),
     ("C10", "ThinArc::with_arc_mut needs exclusive access to the handle", "let t = mk_thin(); t.with_arc_mut(|_a| {});", "let mut t = mk_thin(); t.with_arc_mut(|_a| {});", ["E0596"]),
     ("C03", "mutation through a shared UniqueArc is rejected", "let u = mk_unique(); u.push('x');", "let mut u = mk_unique(); u.push('x');", ["E0596"]),
+    ("C03,C09", "no infallible conversion from Arc to UniqueArc", "need_from::<Arc<String>, UniqueArc<String>>();", "need_from::<String, Arc<String>>();", ["E0277"]),
+    # the pointer fields stay private: a client that can write them can forge any handle
+    ("C01", "Arc's pointer field is private", "let a = mk(); let _ = a.p;", "let a = mk(); let _ = a.len();", ["E0616", "E0609"]),
+    ("C01", "OffsetArc's pointer field is private", "let o = mk_off(); let _ = o.ptr;", "let o = mk_off(); let _ = o.len();", ["E0616", "E0609"]),
+    ("C01", "ThinArc's pointer field is private", "let t = mk_thin(); let _ = t.ptr;", "let t = mk_thin(); let _ = t.slice.len();", ["E0616", "E0609"]),
+    ("C01", "ArcUnion's pointer field is private", "let u = mk_union(); let _ = u.p;", "let u = mk_union(); let _ = u.is_first();", ["E0616", "E0609"]),
+    ("C01", "ArcBorrow's pointer field is private", "let a = mk(); let b = a.borrow_arc(); let _ = b.0;", "let a = mk(); let b = a.borrow_arc(); let _ = b.len();", ["E0616", "E0609"]),
+    ("C03", "UniqueArc's inner Arc is private", "let u = mk_unique(); let _ = &u.0;", "let u = mk_unique(); let _ = u.len();", ["E0616", "E0609"]),
+    ("C10", "the protected header-slice's fields are private", "let mut t = mk_thin(); t.with_arc_mut(|a| { let _ = &a.inner; });", "let mut t = mk_thin(); t.with_arc_mut(|a| { let _ = a.length(); });", ["E0616", "E0609"]),
     # conversions and unwrapping consume the handle they are given (else one owner becomes two)
     ("C09", "Arc::try_unwrap consumes the handle", "let a = mk(); let _r = Arc::try_unwrap(a); touch(&a);", "let a = mk(); let _r = Arc::try_unwrap(a);", ["E0382"]),
     ("C09", "Arc::try_unique consumes the handle", "let a = mk(); let _r = Arc::try_unique(a); touch(&a);", "let a = mk(); let _r = Arc::try_unique(a);", ["E0382"]),
@@ -377,6 +387,70 @@ def gen_api(which):
     return "\n".join(lines) + "\n", cells
 
 
+
+# ---- second stage for obligations that a *correct* generalisation could lift (deep-cloning
+# UniqueArc::clone, element-wise cloning slice constructors, a copy-on-write DerefMut): when such a
+# cell compiles, the program below is built and run; only wrong behaviour is a violation.
+STAGE2_PRELUDE = """#![allow(unused, dead_code, deprecated)]
+extern crate triomphe;
+use std::cell::RefCell;
+use triomphe::*;
+thread_local! { static LOG: RefCell<Vec<(char, u32, u32)>> = RefCell::new(Vec::new()); static NEXT: std::cell::Cell<u32> = std::cell::Cell::new(1); }
+pub struct E(pub u32, pub u32);
+impl E { pub fn new() -> E { let id = NEXT.with(|n| n.replace(n.get() + 1)); E(id, 7) } }
+impl Clone for E { fn clone(&self) -> E { let mut e = E::new(); e.1 = self.1; LOG.with(|l| l.borrow_mut().push(('c', self.0, e.0))); e } }
+impl Drop for E { fn drop(&mut self) { LOG.with(|l| l.borrow_mut().push(('d', self.0, 0))); } }
+fn drops() -> Vec<u32> { LOG.with(|l| l.borrow().iter().filter(|e| e.0 == 'd').map(|e| e.1).collect()) }
+fn clones() -> Vec<(u32, u32)> { LOG.with(|l| l.borrow().iter().filter(|e| e.0 == 'c').map(|e| (e.1, e.2)).collect()) }
+fn fail(m: &str) -> ! { println!("STAGE2-FAIL {}", m); std::process::exit(1) }
+fn check_cloned_slice(src: &[E], got: &[E]) {
+    if got.len() != src.len() { fail("length differs") }
+    let cl = clones();
+    for (s, g) in src.iter().zip(got.iter()) {
+        if g.0 == s.0 || !cl.contains(&(s.0, g.0)) || g.1 != s.1 { fail("an element of the handle is not a clone of the corresponding input element (bitwise copy of an owning value?)") }
+    }
+    if cl.len() != src.len() { fail("number of Clone calls differs from the number of elements") }
+}
+fn finish(total: u32) {
+    let mut d = drops(); d.sort();
+    let want: Vec<u32> = (1..=total).collect();
+    if d != want { fail(&format!("every value must be destroyed exactly once: created 1..={}, destructor log {:?}", total, d)) }
+    println!("STAGE2-OK");
+}
+"""
+STAGE2 = {
+    "Arc::from_header_and_slice accepts only Copy elements": "let v = vec![E::new(), E::new(), E::new()]; let a = Arc::from_header_and_slice(1u8, &v[..]); check_cloned_slice(&v, &a.slice); if !drops().is_empty() { fail(\"something was destroyed during construction\") } drop(a); if drops().len() != 3 { fail(\"releasing the handle must destroy its three clones\") } drop(v); finish(6);",
+    "ThinArc::from_header_and_slice accepts only Copy elements": "let v = vec![E::new(), E::new(), E::new()]; let a = ThinArc::from_header_and_slice(1u8, &v[..]); check_cloned_slice(&v, &a.slice); drop(a); if drops().len() != 3 { fail(\"releasing the handle must destroy its three clones\") } drop(v); finish(6);",
+    "Arc<[T]>: From<&[T]> accepts only Copy elements": "let v = vec![E::new(), E::new(), E::new()]; let a = <Arc<[E]> as From<&[E]>>::from(&v[..]); check_cloned_slice(&v, &a); drop(a); if drops().len() != 3 { fail(\"releasing the handle must destroy its three clones\") } drop(v); finish(6);",
+    "Arc::from_header_and_slice accepts only Copy elements (Arc elements)": "let x = Arc::new(E::new()); let v = vec![x.clone(), x.clone()]; let a = Arc::from_header_and_slice((), &v[..]); if Arc::count(&x) != 5 { fail(\"two more handles to x exist, its count did not follow\") } drop(a); drop(v); if Arc::count(&x) != 1 || !drops().is_empty() { fail(\"count or lifetime of x wrong after the copies are gone\") } drop(x); finish(1);",
+    "UniqueArc<T> is not Clone": "let mut u = UniqueArc::new(E::new()); let mut c = Clone::clone(&u); if (&*u as *const E) == (&*c as *const E) || u.0 == c.0 { fail(\"a cloned UniqueArc shares the value with the original: two unique handles own one value\") } u.1 = 1; c.1 = 2; if u.1 != 1 || c.1 != 2 { fail(\"writes through the two handles interfere\") } let a = u.shareable(); let b = c.shareable(); if Arc::count(&a) != 1 || Arc::count(&b) != 1 { fail(\"counts\") } drop(a); drop(b); finish(2);",
+    "UniqueArc<[T]> is not Clone": "fail(\"UniqueArc<[u8]> became Clone; no behavioural check is written for it\")",
+    "UniqueArc<T> is not Copy": "fail(\"a Copy unique handle is two owners of one value\")",
+    "no infallible conversion from Arc to UniqueArc": "let a = Arc::new(E::new()); let b = a.clone(); let mut u: UniqueArc<E> = From::from(a); u.1 = 99; if b.1 != 7 || (&*u as *const E) == (&*b as *const E) { fail(\"the UniqueArc made from a shared Arc aliases the other owner\") } if Arc::count(&b) != 1 { fail(\"count of the remaining owner\") } drop(u); drop(b); finish(2);",
+    "Arc<T> is not DerefMut": "let mut a = Arc::new(String::from(\"x\")); let b = a.clone(); std::ops::DerefMut::deref_mut(&mut a).push('y'); if &*b != \"x\" || &*a != \"xy\" || Arc::count(&b) != 1 { fail(\"mutation through a shared Arc is visible to the co-owner\") } println!(\"STAGE2-OK\");",
+    "OffsetArc<T> is not DerefMut": "let mut a = Arc::into_raw_offset(Arc::new(String::from(\"x\"))); let b = a.clone(); std::ops::DerefMut::deref_mut(&mut a).push('y'); if &*b != \"x\" || &*a != \"xy\" { fail(\"mutation through a shared OffsetArc is visible to the co-owner\") } println!(\"STAGE2-OK\");",
+}
+
+
+def run_stage2(build_dir, env, idx, name):
+    """Build and run the behavioural program of an obligation that was lifted. Returns None (behaves) or a message."""
+    if name not in STAGE2:
+        return "no behavioural check exists for a lifted `%s`" % name
+    d = os.path.join(build_dir, "probe_stage2_%d" % idx)
+    os.makedirs(os.path.join(d, "src"), exist_ok=True)
+    open(os.path.join(d, "Cargo.toml"), "w").write('[package]\nname = "probe_stage2_%d"\nversion = "0.0.0"\nedition = "2021"\n\n[dependencies]\ntriomphe = { path = "/repo" }\n\n[workspace]\n' % idx)
+    if os.path.exists("/repo/Cargo.lock"):
+        open(os.path.join(d, "Cargo.lock"), "w").write(open("/repo/Cargo.lock").read())
+    open(os.path.join(d, "src", "main.rs"), "w").write(STAGE2_PRELUDE + "fn main() {\n    " + STAGE2[name] + "\n}\n")
+    p = subprocess.run(["cargo", "run", "--offline", "--quiet"], cwd=d, env=env, stdout=subprocess.PIPE, stderr=subprocess.PIPE, text=True)
+    if "STAGE2-OK" in p.stdout and p.returncode == 0:
+        return None
+    fl = [l for l in p.stdout.splitlines() if l.startswith("STAGE2-FAIL")]
+    if fl:
+        return fl[0][12:]
+    return "the behavioural program for the lifted obligation did not build or crashed (rc %d): %s" % (p.returncode, (p.stderr or "")[-400:])
+
+
 def run_api(build_dir, env):
     """The API-obligation matrix. Returns dict(evaluations, distinct, violations (each with 'owner'), samples, detail)."""
     src, cells = gen_api("control")
@@ -389,13 +463,18 @@ def run_api(build_dir, env):
     if stray or (rc != 0 and not diags):
         return {"machinery": "probe_api: unexpected compiler output: %s %s" % (stray[:3], err[-500:])}
     violations = []
+    lifted = []
     for i, c in enumerate(cells):
         got = per.get(i, set())
         if got and not (got & set(c["codes"])):
             return {"machinery": "probe_api: cell `%s` is rejected for another reason than the one it tests (%s, expected one of %s): the probe is wrong or the API changed" % (c["name"], sorted(got), c["codes"])}
         if not got:
-            violations.append({"code": "api-obligation-dropped", "owner": c["owner"], "case": c["name"], "op": c["name"], "msg": "safe client code that must be rejected compiles: " + c["name"]})
-    return {"evaluations": 2 * len(cells), "distinct": len(cells), "violations": violations, "samples": [cells[0]["name"] + " -> rejected " + ",".join(sorted(per.get(0, [])))], "detail": {"api_cells": len(cells), "api_controls": len(cells), "owners": sorted({o for c in cells for o in c["owner"].split(",")})}}
+            why = run_stage2(build_dir, env, i, c["name"]) if c["name"] in STAGE2 else "safe client code that must be rejected compiles"
+            if why is None:
+                lifted.append(c["name"])  # the obligation was lifted by a change that behaves correctly
+                continue
+            violations.append({"code": "api-obligation-dropped", "owner": c["owner"], "case": c["name"], "op": c["name"], "msg": "%s: %s" % (c["name"], why)})
+    return {"evaluations": 2 * len(cells), "distinct": len(cells), "violations": violations, "samples": [cells[0]["name"] + " -> rejected " + ",".join(sorted(per.get(0, [])))], "detail": {"api_cells": len(cells), "api_controls": len(cells), "obligations_lifted_but_behaving": lifted, "owners": sorted({o for c in cells for o in c["owner"].split(",")})}}
 
 
 def run(build_dir, env):
